@@ -16,6 +16,7 @@ import Lemmas.VrfRtcVrf
 import Lemmas.VrfRtcView
 import Lemmas.VrfRtcMgr
 import Lemmas.VrfRtcSup
+import Lemmas.VrfRtcDel
 namespace C17
 open VrfRtc
 
@@ -44,6 +45,29 @@ theorem vrf_export_attrs (v : Vrf) (l : LPath) :
     (toGlobal v l).ecs = l.ecs ++ v.exports ∧ (toGlobal v l).marker = l.marker ∧
     (∀ e, e ∈ v.exports → e ∈ (toGlobal v l).ecs) :=
   toGlobal_attrs v l
+
+/-- What Info / GetTable(VRF) reports agrees with what Select / ListPath(VRF) lists: NumPath is the
+    number of importable PATHS (not all paths of a destination that has one), NumDestination the
+    number of destinations with one. -/
+theorem vrf_info_eq_select (t : Tbl) (vr : Vrf) :
+    (vrfInfo t vr).2 = (t.nlris.map (fun n => (vrfSelect vr (t.dest n)).length)).sum ∧
+    (vrfInfo t vr).1 = (t.nlris.filter (fun n => (vrfSelect vr (t.dest n)).length != 0)).length :=
+  vrfInfo_eq_select t vr
+
+/-- What remains after DeleteVrf: no route originated in the VRF (locally originated under its RD),
+    whatever its rank in its destination was — best, runner-up behind another PE's path, last … -/
+theorem vrf_delete_removes_originated (t : Tbl) (vr : Vrf) (h : TblWF t)
+    (hl : ∀ n p, p ∈ t.dest n → p.src = 0 → p.pathId = 0) :
+    ∀ n p, p ∈ (t.withdrawAll (delVrfPaths t vr)).dest n → ¬ (p.src = 0 ∧ p.rd = vr.rd) :=
+  delVrf_removes t vr h hl
+
+/-- … and every other route stays in its place (so a later withdrawal of the competing path cannot
+    bring anything back, and a VRF re-created with the same RD starts without originated routes). -/
+theorem vrf_delete_keeps_others (t : Tbl) (vr : Vrf) (h : TblWF t)
+    (hl : ∀ n p, p ∈ t.dest n → p.src = 0 → p.pathId = 0) :
+    ∀ n, (t.withdrawAll (delVrfPaths t vr)).dest n =
+      (t.dest n).filter (fun p => !(p.src == 0 && p.rd == vr.rd)) :=
+  delVrf_keeps t vr h hl
 
 /-- A table update keeps "the VRF neighbor holds exactly the importable best paths, as plain
     prefixes" (prefixes unique across RDs). -/
@@ -352,6 +376,15 @@ theorem sysS1_reach : SysSReach (sysS1.step .resume) := by
   all_goals intro p hp; cases hp
 example : sysS1.sup = true ∧ sysS1.v (5, 0) = none ∧ (sysS1.step .resume).v (5, 0) = some 1 := by decide
 example : wantsRFC [⟨32, 65000, 0⟩] [Y] = true ∧ interested ([⟨32, 65000, 0⟩].map MemL.toMem) [Y] = true := by decide
+/-- a VRF-originated route that is the runner-up behind another PE's route for the same RD:prefix,
+    with a foreign target: reported as 1 destination / 1 path, and gone after DeleteVrf -/
+def vrf3 : Vrf := { name := 3, rd := 3, label := 0, imports := [X], exports := [X] }
+def loc3 : VPath := { uid := 11, root := 11, src := 0, pathId := 0, rd := 3, pfx := 8, label := 0, pref := 115, marker := 11, ecs := [X] }
+def pe3 : VPath := { uid := 12, root := 12, src := 1, pathId := 0, rd := 3, pfx := 8, label := 1003, pref := 292, marker := 12, ecs := [Y] }
+def t3 : Tbl := (Tbl.empty.update loc3 false).update pe3 false
+example : (t3.dest (3, 8)).map (·.marker) = [12, 11] ∧ vrfInfo t3 vrf3 = (1, 1) ∧
+    (delVrfPaths t3 vrf3).map (·.marker) = [11] ∧
+    ((t3.withdrawAll (delVrfPaths t3 vrf3)).dest (3, 8)).map (·.marker) = [12] := by decide
 end Examples
 
 end C17
